@@ -294,7 +294,10 @@ def run(ctx):
     bad_rows.sort(key=lambda hb: (0 if (hb[1].get("dev") or {}).get("call", "").startswith("delete_role") else 1,
                                   (hb[1].get("dev") or hb[1].get("bad") or {}).get("step", 0)))
     nrepro = 0
+    norepro = []
     for hp, b in bad_rows:
+        if len(norepro) > 40:
+            break
         for field, known in (("bad", False), ("dev", True)):
             m = b.get(field)
             if not m:
@@ -313,7 +316,15 @@ def run(ctx):
             # same history index -> same concretisation map and shuffles
             summ, again, _ = replay_file(ctx, one, "repro", workers=1, idx0=b["i"])
             if not [a for a in again if a.get("bad") or a.get("dev")]:
-                raise vlib.Inconclusive("mismatch did not reproduce: %s" % json.dumps(b))
+                # not reproducible from scratch: typically a symptom of what an EARLIER history did
+                # to the service instance its worker shares (e.g. a refused call that kept a
+                # partial effect). Look at the other candidates; inconclusive only if none reproduces
+                norepro.append(b)
+                seen.discard(pre)
+                nrepro -= 1
+                if len(norepro) > 40:
+                    break
+                continue
             again = [a for a in again if a.get(field)]
             if not again:
                 # the from-scratch run stopped earlier at the other kind of contradiction,
@@ -328,6 +339,11 @@ def run(ctx):
                         "role->policy / role->subject edges stay, ResolveSubjects walks nodes]"
             ctx.report(sig, what, {"history": hist, "mismatch": m2, "mode": mode, "idx0": b["i"],
                                    "cmd": "python3 tools/verif.py replay C18 <this file>"})
+    if norepro and not ctx.violations:
+        raise vlib.Inconclusive("mismatch did not reproduce: %s" % json.dumps(norepro[0]))
+    if norepro:
+        ctx.notes.append("%d mismatches did not reproduce from scratch (symptoms of an earlier history on a shared "
+                         "service instance), first: %s" % (len(norepro), json.dumps(norepro[0])[:400]))
     if incon and not ctx.violations:
         raise vlib.Inconclusive("harness inconclusive: %s" % json.dumps(incon[0]))
     if drift and not ctx.violations:
